@@ -317,6 +317,23 @@ def run(ctx):
                            ctx.where(b, blk.term.line), 'duration from %s, runtime from %s, wraps %s' % (dur, rt, wrapped), construct='apply_timeout-site:' + key, sites=dur + rt)
                 else:
                     ctx.ob('R10.3', 'apply_timeout is called with a TimeoutType constant', False, ctx.where(b, blk.term.line), str(tt), construct='apply_timeout-site:unknown')
+    # the helpers of the getter receive the per-call timeouts of this very call (not the pool-level ones)
+    tref = lambda ty: ty.lstrip('&').replace("'_ ", '').strip() == TIMEOUTS or ty.endswith('config::Timeouts') and ty.startswith('&')
+    own_names = top.upvars_where(lambda ty: ty.startswith('&') and ty.endswith('config::Timeouts'))
+    tana = prog.an(top)
+    n_hand = 0
+    for blk in top.blocks:
+        cb_ = prog.bodies.get(blk.term.rcallee) if blk.term.kind == 'call' and not blk.cleanup and blk.term.rcallee else None
+        if cb_ is None or not cb_.path.startswith('deadpool::managed'):
+            continue
+        for i_, a_ in enumerate(blk.term.args):
+            if i_ + 1 < len(cb_.locals) and i_ < cb_.arg_count and cb_.locals[i_ + 1]['ty'].startswith('&') and cb_.locals[i_ + 1]['ty'].endswith('config::Timeouts'):
+                n_hand += 1
+                src = sources(tana, a_, deep=True)
+                okh = any(x[0] == 'upvar' and x[1].split('.')[0] in own_names for x in src) and not any(x[0] == 'field' and x[1].endswith('PoolConfig.timeouts') for x in src)
+                ctx.ob('R10.3', '%s receives the per-call timeouts of this call' % cb_.name.split('::')[-1], okh, ctx.where(top, blk.term.line),
+                       'argument from %s' % sorted({str(x[1]) for x in src if x[0] in ('upvar', 'field')}), construct='per-call-timeouts:' + cb_.name.split('::')[-1])
+    ctx.floor('R10.3', 'helpers of the getter taking &Timeouts', n_hand, 1)
     ctx.ob('R10.3', 'exactly one apply_timeout site per timeout kind', seen_tt == {'Wait': 1, 'Create': 1, 'Recycle': 1}, '', str(seen_tt), construct='apply_timeout-sites')
 
     # ---- R10.6 error discipline ------------------------------------------------------------------------------------
